@@ -189,6 +189,29 @@ def run_sfcf(pe, acc, case, d):
                     acc.fail('sfcf:%s:replica-order' % layout, sub, 'replica=%s (%s): %s' % (rl, nk, bad))
                 else:
                     acc.ok(('sfcf-replica-order', layout, perm, nk), True, 'sfcf-selection')
+    # call history: the same paths hold ANOTHER file set afterwards (compact layout: the correlator blocks in another order, so every
+    # block starts at another line) - the reader has to look at the files again
+    if layout == 'c':
+        try:
+            for r in reps:
+                sf.write_compact(d, PREFIX, r, CFGS[r], sorted(sf.CORRS)[::-1])
+            bad = None
+            for nm2 in ('f_A', 'F_V0', 'f_1'):
+                typ2, T2 = sf.CORRS[nm2]
+                # the default block (read from the first file set above) and one that was not requested before
+                for qi2, off2, w_, w2_ in ((0, 0, 0, 0), (1, 1, 1, 1 if typ2 != 'bi' else 0)):
+                    res = rd.read_sfcf(d, PREFIX, nm2, quarks=sf.QUARKS[qi2], corr_type=typ2, noffset=off2, wf=w_, wf2=w2_, version=VERSION[layout], silent=True)
+                    for t in range(T2):
+                        exp_idl, exp_s = expected(reps, nm2, qi2, off2, w_, w2_, t, False)
+                        bad = bad or check_obs(res[t], list(exp_idl), exp_idl, exp_s, 1e-15)
+            if bad:
+                acc.fail('sfcf:%s:rewritten-files' % layout, dict(case, sel='rewritten'), 'after the files were rewritten with the correlator blocks in another order: %s' % bad)
+            else:
+                acc.ok(('sfcf-rewritten', layout, tuple(reps)), True, 'sfcf-selection')
+        except Exception as e:
+            acc.fail('sfcf:%s:rewritten-files:raised' % layout, dict(case, sel='rewritten'), '%s: %s' % (type(e).__name__, e))
+        for r in reps:
+            sf.write_compact(d, PREFIX, r, CFGS[r], sorted(sf.CORRS))
     # read_sfcf_multi: several correlators / quarks / wave functions in one call, nested and keyed output
     try:
         nl = ['f_A', 'f_1', 'F_V0']
